@@ -125,6 +125,8 @@ func checkC07(c *Ctx) {
 	}
 	c.Rule("R7.7", "logging through an encoder never modifies it: EncodeEntry/Clone/writeContext only read the shared receiver", 3)
 	c9EncoderPurity(c, "R7.7")
+	c.Rule("R7.12", "a cloned encoder shares no pooled buffer with its source (a derived logger's context cannot be overwritten through its parent's scratch buffer)", 1)
+	c8CloneOwnership(c, "R7.12")
 	c.Rule("R7.11", "no value built from a parent shares a slice tail with it: appends onto receiver/argument-owned slices are capped or the owner's own growth (all packages, helper-transparent)", 1)
 	c7AppendsAll(c, "R7.11")
 	c.Rule("R7.8", "namespaces nest per object: the open-namespace counter accounts for exactly the braces still open, so a nested object never closes (or forgets) the logger's own namespace", 3)
@@ -963,6 +965,36 @@ func c7AppendsAll(c *Ctx, rule string) {
 		}
 		var bad []string
 		for _, s := range sitesIn(f) {
+			// an append onto a shortened re-slice of a slice ARGUMENT (fields[:0], args[:k]) always lands in the
+			// caller's backing array: the caller's elements are overwritten (in-place filtering of an argument)
+			if s.what == "append" && f == top {
+				// through the loop variable that accumulates the result (kept := fields[:0]; kept = append(kept, f))
+				var short *ssa.Slice
+				seen := map[ssa.Value]bool{}
+				var find func(v ssa.Value, d int)
+				find = func(v ssa.Value, d int) {
+					if v == nil || seen[v] || d > 4 || short != nil {
+						return
+					}
+					seen[v] = true
+					switch x := v.(type) {
+					case *ssa.Slice:
+						if x.Max == nil && x.High != nil && paramIndex(top, x.X) >= 0 {
+							short = x
+						}
+					case *ssa.Phi:
+						for _, e := range x.Edges {
+							find(e, d+1)
+						}
+					}
+				}
+				find(s.base, 0)
+				if short != nil {
+					n++
+					bad = append(bad, "append onto "+Desc(short)+", a shortened re-slice of the argument "+top.Params[paramIndex(top, short.X)].Name()+": the elements are written into the caller's own array")
+					continue
+				}
+			}
 			owner := ""
 			for _, p := range top.Params {
 				if ownedBy(s.base, p, 0) {
